@@ -31,6 +31,7 @@ def c03 (input implOut : Sexp) : Option Verdict := do
   let (model, spec, c) ← Config.handleCase input
   let agree := Sexp.beq model implOut
   let depthKept := match c03Field "depth" implOut with
+    | some (.list [_, .atom "-"]) => c.via == "opt"   -- `optimize_with` returned `Err`: no state to look at
     | some (.list [_, d]) => Sexp.nat? d == some c.pre.length
     | _ => Sexp.beq implOut Config.illFormed
   let cls :=
